@@ -110,7 +110,10 @@ def _run_variant(args):
     """Executed in a grandchild fork."""
     from sim import execs
 
-    prog, mode, variant = args
+    prog, mode, variant = args[:3]
+    from sim import oracle
+
+    oracle.set_carrier(args[3] if len(args) > 3 else None)
     sched, force = MODES[mode]
     ctl = execs.FaultController(
         decline_k=variant.get("k"),
@@ -154,7 +157,7 @@ def enumerate_program(payload):
 
     def fork(variant):
         stats["runs"] += 1
-        res = fork_call(_run_variant, ((prog, mode, variant),), timeout=60)
+        res = fork_call(_run_variant, ((prog, mode, variant, payload.get("family")),), timeout=60)
         if res.get("status") != "ok":
             stats["variant_errors"] += 1
             return None
@@ -320,7 +323,7 @@ def xworld_replay(payload):
     from sim.iso import fork_call
     from sim.oracle import Declined
 
-    res = fork_call(_run_variant, ((payload["program"], payload["mode"], {"record": False}),), timeout=60)
+    res = fork_call(_run_variant, ((payload["program"], payload["mode"], {"record": False}, payload.get("family")),), timeout=60)
     violations = []
     if res.get("status") == "ok":
         xw = payload["xworld"]
